@@ -310,7 +310,8 @@ func (rep *Report) writeEvidence(def *propDef, violations int) {
 		exhaustive = false
 		stages = append(stages, map[string]interface{}{"stage": "trace:" + t.Name, "containers_recorded": t.Containers, "api_ops": t.Ops,
 			"user_function_executions": t.Execs, "trace_lines": t.TraceLines, "tlc_states": t.TLC.Distinct, "tlc_wall_s": t.TLC.Wall,
-			"predictions_compared": t.Predicted, "containers_accepted": t.Accepted, "strict_rejected_ops": t.StrictBad, "divergences": t.Divs})
+			"predictions_compared": t.Predicted, "containers_accepted": t.Accepted, "strict_rejected_ops": t.StrictBad,
+			"variant_executions_compared_pairwise": t.Pairs, "divergences": t.Divs})
 	}
 	for _, s := range rep.Specials {
 		states += s.States
